@@ -856,7 +856,10 @@ pub fn c10(scn: &Scenario, tr: &[Ev]) -> Vec<Violation> {
             v(&mut out, "C10 returns by its deadline", format!("op {} (timeout {t} at t={}) never returned", o.op, o.t0));
             continue;
         };
-        if t1 > deadline {
+        // (in "stall" scenarios the executor itself is kept busy past deadlines: when a call returns is then not in
+        // the library's hands, what it returns still is)
+        let stall = scn.has_tag("stall");
+        if t1 > deadline && !stall {
             v(&mut out, "C10 returns by its deadline", format!("op {} returned at t={t1}, deadline {deadline}", o.op));
         }
         // natural completion instant
@@ -867,7 +870,7 @@ pub fn c10(scn: &Scenario, tr: &[Ev]) -> Vec<Violation> {
         };
         match &o.res {
             Some(Res::Err { k: ErrK::Timeout, .. }) => {
-                if t1 != deadline {
+                if t1 != deadline && !(stall && t1 > deadline) {
                     v(&mut out, "C10 Timeout exactly at the deadline", format!("op {}: Timeout at t={t1}, deadline {deadline}", o.op));
                 }
                 if let Some(n) = natural {
